@@ -10,7 +10,7 @@
    Not covered by these theorems (covered by the correspondence runs only):
    close/reopen between imports, SetHead (which makes the head lighter by design). *)
 From Coq Require Import NArith List.
-From AQ Require Import Chain.Store Chain.ChainSpec Chain.ChainProofs Chain.ChainWitness.
+From AQ Require Import Chain.Store Chain.ChainSpec Chain.ChainProofs Chain.ChainAccept Chain.ChainWitness.
 Import ListNotations.
 Local Open Scope N_scope.
 
@@ -34,13 +34,11 @@ Print Assumptions C02_head_td_monotone.
 
 (* the head is a stored block with its state; every stored block has its state and a
    stored ancestry down to genesis (it and all its ancestors were fully validated);
-   no stored block has a greater total difficulty than the head.
-   `_partial`: the maximum is taken over the blocks the node STORED.  That every
-   delivered block which is valid and whose parent is stored does get stored (the
-   import never ends in an error for it: reorg cannot fail, proved as reorg_ok) is
-   established inside wbws_inv but not restated here as a completeness theorem;
-   the direct oracle checks exactly that on the Go chain (head-not-heaviest). *)
-Theorem C02_head_heaviest_partial : forall (U : N -> sblock) (g : header),
+   no stored block has a greater total difficulty than the head.  Together with
+   C02_valid_batch_accepted below (every valid block the node is given on top of
+   a stored parent IS stored, and stays stored) this is the full statement: the
+   head is heaviest among all fully validated blocks the node has been given. *)
+Theorem C02_head_heaviest : forall (U : N -> sblock) (g : header),
   U (h_hash g) = (g, []) -> h_number g = 0 ->
   forall ops, inserts_only ops -> (forall b, In b (blocks_of ops) -> wf_block U b) ->
   let s := run ops (pre_open g) in
@@ -49,7 +47,27 @@ Theorem C02_head_heaviest_partial : forall (U : N -> sblock) (g : header),
   (forall h x, block_of (dsk s) h = Some x -> has_state (dsk s) (s_root x) = true /\ grounded g (dsk s) x) /\
   (forall h t, header_of (dsk s) h <> None -> td_of (dsk s) h = Some t -> t <= head_td s).
 Proof. exact head_heaviest. Qed.
-Print Assumptions C02_head_heaviest_partial.
+Print Assumptions C02_head_heaviest.
+
+(* acceptance completeness: a batch of valid, well-formed blocks that is linked
+   (contiguous_prefix keeps all of it) and whose first parent is stored is stored
+   entirely - whatever the tie-break coins, provided the oracle list is long
+   enough - stays stored under any further imports, and is never heavier than
+   the head *)
+Theorem C02_valid_batch_accepted : forall (U : N -> sblock) (g : header),
+  U (h_hash g) = (g, []) -> h_number g = 0 ->
+  forall ops1 b0 r cs ops2,
+  inserts_only (ops1 ++ OpInsert (b0 :: r) cs :: ops2) ->
+  (forall b, In b (blocks_of (ops1 ++ OpInsert (b0 :: r) cs :: ops2)) -> wf_block U b) ->
+  header_of (dsk (run ops1 (pre_open g))) (h_parent (b_hdr b0)) <> None ->
+  contiguous_prefix b0 r = r ->
+  (forall b, In b (b0 :: r) -> b_valid b = true) ->
+  (length (b0 :: r) <= length cs)%nat ->
+  let s := run (ops1 ++ OpInsert (b0 :: r) cs :: ops2) (pre_open g) in
+  forall b, In b (b0 :: r) ->
+    header_of (dsk s) (h_hash (b_hdr b)) <> None /\ td_or0 (dsk s) (h_hash (b_hdr b)) <= head_td s.
+Proof. exact valid_batch_accepted. Qed.
+Print Assumptions C02_valid_batch_accepted.
 
 (* a reorganisation never fails on blocks whose stored ancestry reaches genesis *)
 Theorem C02_reorg_total : forall (g : header) (fuel : nat) (o n : sblock) (s : st),
